@@ -259,6 +259,22 @@ def compare_session(c, impl, mod, j):
     tol = Fraction(1, 10**9) * Fraction(sess_scale(c))
     if c['cfg']['alpha'][0] == 'timed':
         j.tags.append('model_skipped')
+        # the session model is not used, but the rules driven by the recorded rows are: the same sizing knife edges apply
+        if impl['init'][0] == 'ok' and c['market']['kind'] == 'table':
+            rows_ = dict((t, dict(s_)) for t, s_ in c['market']['rows'])
+            eq_ = dict(impl.get('pcm_equity', []))
+            for t, w in impl['allocs']:
+                if t not in eq_:
+                    continue
+                sc = {'kind': 'long_only' if c['cfg']['long_only'] else 'long_short', 'param': c['cfg']['param'], 'equity': eq_[t],
+                      'fee': c['cfg']['fee'], 'prices': [[a, rows_.get(t, {}).get(a)] for a, _ in w], 'weights': w}
+                try:
+                    k = lo_knife(sc) if c['cfg']['long_only'] else ls_knife(sc)
+                    if any(k(a) for a, _ in w):
+                        j.knife += 1
+                        return
+                except Exception:
+                    pass
         return
     if impl['init'][0] == 'err' or mod[0] == 'err':
         mi = mod[1] if mod[0] == 'err' else 'ok'
